@@ -24,7 +24,7 @@ def run_vector(w, i, v):
     try:
         d = Update.parse(0, ref_msg[19:], True)
         txt = d['attr'].get(sub) if d.get('attr') else None
-        want = len(v['u']['o']) // 8 if v['u']['name'] == 'multi' else 1
+        want = len(v['u']['o']) // 8 if v['u']['name'] == 'multi' else (len(v['u']['o']) // 12 if v['u']['name'] == 'large-multi' else 1)
         if d.get('sub_error') or not isinstance(txt, list) or len(txt) != want or not all(isinstance(t, str) for t in txt):
             line['diff'] = 'decoder gave %r (sub_error=%r)' % (txt, d.get('sub_error'))
             return line
